@@ -188,12 +188,26 @@ def _mountaincar(S, cls, modname, field, limits, term, reward, continuous):
 
 
 def _wall_replay(cls):
+    """R1: the real clip against Gymnasium's limit rule on a grid of (position, velocity) pairs around both walls - beyond / exactly on / inside the wall, moving into it / away from
+    it / at rest, velocities beyond the speed limit - with the counter-model's own state first."""
     def replay(model):
         env = cls()
-        y = jnp.array([-1.3, -0.05])
-        out = np.asarray(env.clip(y))
-        exp = np.asarray(R.mountaincar_limits(env, y))
-        return dict(reproduced=not np.allclose(out, exp), route="R1", inputs=dict(y=[-1.3, -0.05]), observed=dict(lerax_clip=out.tolist(), gymnasium_limits=exp.tolist()))
+        lo, hi, ms = float(env.min_position), float(env.max_position), float(env.max_speed)
+        ys = []
+        try:
+            ys.append([kit.model_float(model, "y[0]", lo), kit.model_float(model, "y[1]", 0.01)])
+        except Exception:
+            pass
+        for x in (lo - 0.1, lo, float(np.nextafter(np.float32(lo), np.float32(0))), lo + 0.05, 0.0, hi - 0.05, hi, hi + 0.1):
+            for v in (-2 * ms, -0.05, -1e-4, 0.0, 1e-4, 0.0032419, 0.05, 2 * ms):
+                ys.append([x, v])
+        for yv in ys:
+            y = jnp.asarray(yv, jnp.float32)
+            out = np.asarray(env.clip(y))
+            exp = np.asarray(R.mountaincar_limits(env, y))
+            if not np.allclose(out, exp, atol=1e-7):
+                return dict(reproduced=True, route="R1 (real clip vs Gymnasium's position / velocity limits)", inputs=dict(y=[float(v_) for v_ in yv]), observed=dict(lerax_clip=out.tolist(), gymnasium_limits=exp.tolist()))
+        return dict(reproduced=False, note=f"{len(ys)} (position, velocity) pairs around both walls agree with Gymnasium's limits")
     return replay
 
 
